@@ -282,6 +282,21 @@ def c19(run):
 ENGINE_BINARIES = [('units', True), ('qty', False), ('rel', False), ('math', False), ('dir', False), ('model', False), ('dims', False), ('enums', False)]
 SAN_SKIP = 'c09.grid,c15.float_sweep,c15.float_all,c06.box,c14.base_dimensions'   # exhaustive sweeps: covered (in full) by the unsanitised checks
 
+def table_walk_step(run):
+    """C20: the introspection dump walks EVERY library table (abbreviations, spellings, consistent units, related systems, both conversion tables of every unit,
+    dimension sets) - here in the sanitizer flavour: a table lookup that misses, a dangling key, an invalid enum value die under ASan / UBSan / libstdc++ assertions."""
+    exes = D.build_or_violation(run, ['introspect'], 's')
+    if not exes: return
+    env = dict(os.environ, ASAN_OPTIONS='detect_leaks=0:exitcode=97', UBSAN_OPTIONS='print_stacktrace=1:halt_on_error=1:exitcode=98')
+    p = subprocess.run([exes['introspect']], stdout=subprocess.PIPE, stderr=subprocess.PIPE, env=env)
+    run.evaluations += 1; run.classes['san:table-walk'] = run.classes.get('san:table-walk', 0) + 1
+    if p.returncode != 0:
+        run.fails.append(dict(kind='tablewalk', key='tablewalk/' + D.summarise_crash(p.stderr.decode(errors='replace'))[:120],
+                              msg='walking every library table (abbreviations, spellings, consistent units, conversions) in the sanitizer build died with exit %s: %s' % (p.returncode, D.summarise_crash(p.stderr.decode(errors='replace'))[:600])))
+    else:
+        try: n = sum(len(e.get('spellings', [])) + len(e.get('enumerators', [])) for e in json.loads(p.stdout.decode(errors='replace'))['enumerations']); run.evaluations += n; run.nontrivial += n
+        except Exception as e: run.fails.append(dict(kind='tablewalk', key='tablewalk/invalid-dump', msg='the table dump of the sanitizer build is not valid JSON: %s' % e))
+
 def valgrind_step(run, binaries, scale):
     """memcheck on the unsanitised engines (stands in for MSan: no instrumented libstdc++ here): only memcheck errors count; valgrind
     computes long double in 64-bit precision, so the engines' own bit-exact oracles are not meaningful under it and are ignored"""
@@ -323,6 +338,7 @@ def c20(run):
     names = [b for b, _ in ENGINE_BINARIES]
     exes = D.build_or_violation(run, names, 's')
     exes_n = D.build_or_violation(run, ['introspect'], 'n')
+    table_walk_step(run)
     if exes and exes_n:
         fa = D.factors_file(exes_n['introspect'])
         shards = {'qty': 4, 'rel': 6}
@@ -387,6 +403,10 @@ def replay_other(f, path):
     if f.get('kind') == 'fuzz': return replay_fuzz(f, path)
     if f.get('kind') == 'valgrind':
         run = D.Run(f['property'], 'quick'); valgrind_step(run, [(f['binary'], False)], 0.002)
+        if run.fails: print('replay: ' + run.fails[0]['msg'][:500]); print('VIOLATION property=%s replay=%s' % (f['property'], path)); return 1
+        print('replay: clean now'); return 0
+    if f.get('kind') == 'tablewalk':
+        run = D.Run(f['property'], 'quick'); table_walk_step(run)
         if run.fails: print('replay: ' + run.fails[0]['msg'][:500]); print('VIOLATION property=%s replay=%s' % (f['property'], path)); return 1
         print('replay: clean now'); return 0
     if f.get('kind') == 'c19':
